@@ -49,6 +49,7 @@ the rules see:
   S28 star calls          `a, b, c = E` ; `f(a, b, c)`  ->  `f(*E)`   (a, b, c used nowhere else)
   S30 while               `while c: B`  ->  `while True: if not c: break ; B`
   S31 result variables    `if c: A ; x = e` ; `return x`  ->  `if c: A ; return e` ; `return x`
+  S32 loop unpacking      `for x in it: a, b = x ; S`  ->  `for a, b in it: S`
   S12 literal loops       `for x in (a, b): S(x)`  ->  `S(a)` ; `S(b)`   (at most four simple elements, no
                           `break`, `continue` only as leading guards, x not used afterwards)
 
@@ -1009,6 +1010,19 @@ class Canon:
             s.test = _loc(ast.Constant(value=True), s)
             s.body = [guard] + s.body
             return [s], 0
+        if (
+            isinstance(s, (ast.For, ast.AsyncFor)) and isinstance(s.target, ast.Name) and s.body and isinstance(s.body[0], ast.Assign)
+            and len(s.body[0].targets) == 1 and isinstance(s.body[0].targets[0], (ast.Tuple, ast.List))
+            and isinstance(s.body[0].value, ast.Name) and s.body[0].value.id == s.target.id
+            and all(isinstance(x, ast.Name) for x in s.body[0].targets[0].elts)
+        ):
+            # S32 `for x in it: a, b = x ; S`  ->  `for a, b in it: S`   (x used nowhere else)
+            x = s.target.id
+            facts = NameFacts(self.fn)
+            if facts.loads.get(x, 0) == 1 and facts.stores.get(x, 0) == 1 and x not in facts.nested_refs:
+                s.target = _store(s.body[0].targets[0])
+                s.body = s.body[1:] or [_loc(ast.Pass(), s)]
+                return [s], 0
         if isinstance(s, (ast.For, ast.AsyncFor)) and not s.orelse:
             # S23 a loop over a conditional iterable is a conditional of loops; a loop over `()` is nothing
             if isinstance(s.iter, ast.IfExp) and is_bool_expr(s.iter.test) or (isinstance(s.iter, ast.IfExp) and _simple(s.iter.test)):
